@@ -13,7 +13,12 @@ EXTS = ["ssd", "sdd", "dsd", "ddd", "mmb", "hfe", "mfm"]
 COMMANDS = [["cat"], ["info", "#.*"], ["type", "--binary", "NAME"], ["list", "NAME"], ["dump", "NAME"],
             ["dump-sector", "0", "1", "2"], ["free"], ["space"], ["sector-map"], ["show-titles"], ["help"],
             ["extract-files", "OUT"], ["extract-unused", "OUT"], ["cat", "2"], ["space", "0", "0B"],
-            ["show-titles", "0", "1"], ["free", "0A"], ["info", ":0B.#.*"], ["sector-map", "1"]]
+            ["show-titles", "0", "1"], ["free", "0A"], ["info", ":0B.#.*"], ["sector-map", "1"],
+            # (appended later; indices above are used by saved replays) sector reads of drives that may be empty,
+            # unformatted (MMB) or the second side, at the very first sector
+            ["dump-sector", "0", "0", "0"], ["dump-sector", "1", "0", "0"], ["dump-sector", "2", "0", "0"],
+            ["dump-sector", "3", "0", "1"], ["dump-sector", "4", "0", "0"], ["dump-sector", "1020", "0", "0"],
+            ["type", "--binary", ":2.$.F"], ["cat", "1"], ["extract-unused", "OUT", "2"], ["free", "2"]]
 CHARS = gen.PLAIN_CHARS
 HOSTILE_ARGS = ["", "-1", "99999999999999999999", "0x10", "4294967296", "4294967295", "2147483648", "1e3", "\xff\xfe",
                 "A" * 4096, "0A", "0Z", ":0.$", ":.", "#", "*", "--", "-", "--binary", "--file", "$.", ":99999999999.$.X",
@@ -63,6 +68,7 @@ def image_case(draw):
                 arg = draw(st.integers(0, 255))
                 if k == "skipbits":
                     arg = draw(st.integers(0, 7)) & (6 if c["enc"] == "FM" else 7)
+                    arg |= draw(st.sampled_from([0, 0x7F, 0x7F, draw(st.integers(0, 127))])) << 3
                 ops.append([draw(st.sampled_from([0, 1, 5, 100, 255, 256, 300, 511, 512, 1000])), k, arg])
         c["v3ops"] = ops
         # sector-level oddities recorded with VALID CRCs (what a byte-level mutation cannot produce)
@@ -318,7 +324,7 @@ class C07(CheckBase):
     rule = ("(1) Hypothesis CLI cases: generated valid images of every container (ssd/sdd/dsd/ddd/mmb/hfe v1+v3/mfm; "
             "Acorn/Watford/Opus) with 0-4 structure-aware mutations (truncation at every structure boundary +-1, "
             "declared counts/offsets/lengths overwritten with 0/1/max-1/max/drawn, bit flips, splices, zeroed or FF "
-            "sectors, appended bytes), optionally gzip-compressed (and then corrupted), x 19 command lines x "
+            "sectors, appended bytes), optionally gzip-compressed (and then corrupted), x 29 command lines x "
             "--verbose, on the ASan+UBSan, default and NDEBUG builds; plus command lines drawn from the real option "
             "and command names with hostile values.  Oracle: exit 0/1/2, no signal, no sanitizer report, no time-out "
             "(10 s, confirmed 3x), peak RSS <= 256 MiB + 64 x file size, exit != 0 => stderr non-empty.  (2) libFuzzer "
